@@ -134,6 +134,25 @@ def main():
             p = rboth / rin; sd = math.sqrt(max(p * (1 - p), 1e-9) * (1.0 / ok + 1.0 / rin))
             if abs(both / ok - p) > 6 * sd + 2e-3:
                 pred(l, "with two goals the region where the hyperspheroids overlap holds %.4f of the informed set but received %.4f of the direct samples (6 sigma = %.4f): states that can still help are under-sampled" % (p, both / ok, 6 * sd))
+    # (e) several start states: the heuristic is the best over ALL starts (rejection and direct samplers), with and without a lower bound
+    slines2 = []
+    for kind in ("rejection", "direct"):
+        for dim in (2, 3):
+            for ns in (1, 2, 3, 4):
+                slines2.append("INFS %s %d %d %g %g %d %d" % (kind, dim, ns, 9.5, -1, nsamp, rng.randint(1, 10 ** 6)))
+                if kind == "rejection": slines2.append("INFS %s %d %d %g %g %d %d" % (kind, dim, ns, 9.5, 8.5, nsamp, rng.randint(1, 10 ** 6)))
+    rc, o, e, s = vf.sh([drv], input="\n".join(slines2) + "\n", timeout=3000); c.step("impl:informed-multi-start", drv + " INFS ...", s, rc == 0)
+    for l, out in zip(slines2, o.split("\n")):
+        w = out.split()
+        if w[:1] != ["infs"]: pred(l, "no observation: " + out[:80]); continue
+        ok, over, under = int(w[5]), int(w[7]), int(w[9]); only = list(map(int, w[11:15])); rin = int(w[16]); ronly = list(map(int, w[18:22])); stats["multi_start_samples"] += ok
+        if over: pred(l, "%d of %d samples cannot improve the solution through any start (best focal sum not below the cost bound)" % (over, ok))
+        if under: pred(l, "%d of %d samples have a best focal sum below the lower cost bound" % (under, ok))
+        if ok > 1000 and rin > 1000:
+            for i in range(4):
+                p = ronly[i] / rin; sd = math.sqrt(max(p * (1 - p), 1e-9) * (1.0 / ok + 1.0 / rin))
+                if abs(only[i] / ok - p) > 6 * sd + 2e-3:
+                    pred(l, "states that improve the solution only through start %d hold %.4f of the informed set but received %.4f of the samples (6 sigma = %.4f)" % (i, p, only[i] / ok, 6 * sd)); break
     c.cov.update({"evaluations": len(script) + len(glines) + stats["samples"], "traces_validated_against_impl": len(script), "distinct_nontrivial": stats["rej_success"] + stats["phs"],
                   "rule": "(a) %d scripted rejection-sampler calls (iteration limits 0..10, one / two bounds, candidates on both sides of the bounds) compared exactly; (b) %d hyperspheroids: dimension 2..10, random / axis-aligned / nearly coincident foci (1e-8 apart), transverse diameter (1+1e-9)..100 x the focal distance, unit vectors on the sphere and inside the ball; (c) direct and rejection samplers on R^2, R^3, R^6, SE(2) with cost bound 1.02..40 x the focal distance, with and without lower bound, %d samples each with the real generator, incl. a 6-sigma level test of uniformity" % (len(script), len(glines), nsamp),
                   "disagreements": ndiff, "predicate_failures": npred, "histogram": dict(stats)})
@@ -141,7 +160,7 @@ def main():
     c.cov["trusted_base"] += ["extraction (ExtrOcamlBasic) + extract/phs_driver.ml; harness/phs_driver.cpp; stdlib real-number axioms for the geometric theorems",
                              "the rotation into the world frame (Eigen JacobiSVD) is not modelled: the theorems are stated in the hyperspheroid's own frame and the transform is checked numerically (1e-9 relative)"]
     c.assumptions += ["uniformity is a statistical test (6 sigma on 4 nested levels), not a theorem; 'all states that can help are reachable' is proved only as surjectivity-free statements (sphere onto the c-level set, ball into the sub-level set)",
-                      "OrderedInfSampler and multiple starts/goals are covered by C03/C01 runs of SORRT*/informed planners only"]
+                      "OrderedInfSampler is covered by C03/C01 runs of SORRT* only; several starts / goals by the INFS / INFM statistical tests"]
     if first_pred:
         l, msg = first_pred
         c.violation("implementation violates C15: %s on '%s'" % (msg, l[:300]), "# C15 replay: feed to build/harness/phs_driver\n%s\n" % l)
